@@ -34,7 +34,7 @@ spec fn median_spec(s: Seq<u64>) -> Option<u64> {
 //@| requires
 //@|     // [assumption, stated] heights < 2^63 (the even-count mean adds two of them)
 //@|     forall|i: int| 0 <= i < values@.len() ==> (#[trigger] values@[i]) < 0x8000_0000_0000_0000,
-//@| ensures r == median_spec(values@),
+//@| ensures r == median_spec(values@), r matches Some(m) ==> m < 0x8000_0000_0000_0000,
 //@ before "let mid_index = length / 2;"
 //@| proof {
 //@|     axiom_sorted_u64(values_in);
@@ -80,6 +80,151 @@ proof fn axiom_string_keys()
 //@| {
 //@|     proof { axiom_string_keys(); broadcast use vstd::std_specs::hash::group_hash_axioms; }
 //@ tail
+//@| }
+//@end
+
+// ---------------------------------------------------------------------------------------------------------------------
+// C17: calculate_height_target (health.rs:99) for ANY number of explorer heights (the Kani harnesses c17_band_N enumerate N <= 8)
+// R17: `xs.iter().filter(|&x| (lo..=hi).contains(x)).count()` => a counting loop with `lo <= *x && *x <= hi` (definitions of
+// Iterator::filter/count and RangeInclusive::contains)
+// ---------------------------------------------------------------------------------------------------------------------
+// [trusted:assumed-spec] i64::saturating_add
+pub open spec fn sat_add_i64(a: i64, b: i64) -> i64 { if a + b > i64::MAX { i64::MAX } else if a + b < i64::MIN { i64::MIN } else { (a + b) as i64 } }
+pub assume_specification[i64::saturating_add](a: i64, b: i64) -> (r: i64) ensures r == sat_add_i64(a, b);
+// how many of the first n heights lie in [lo, hi]
+spec fn count_in_band(s: Seq<u64>, lo: u64, hi: u64, n: int) -> int
+    decreases n
+{
+    if n <= 0 { 0 } else { count_in_band(s, lo, hi, n - 1) + (if lo <= s[n - 1] && s[n - 1] <= hi { 1int } else { 0int }) }
+}
+//@extract file=watchdog/src/health.rs item="fn calculate_height_target" props=C17
+//@ ret r
+//@ rewrite R17 "let valid_explorers = heights\.iter\(\)\.filter\(\|&x\| \(lo\.\.=hi\)\.contains\(x\)\)\.count\(\);" => "let mut vp_count: usize = 0;\n    for x in heights.iter() {\n        if lo <= *x && *x <= hi { vp_count = vp_count + 1; }\n    }\n    let valid_explorers = vp_count;"
+//@ spec
+//@| requires
+//@|     // [assumption, stated] heights < 2^63 (median's even-count mean adds two of them)
+//@|     forall|i: int| 0 <= i < heights@.len() ==> (#[trigger] heights@[i]) < 0x8000_0000_0000_0000,
+//@| ensures
+//@|     // no target unless at least min_explorers heights were fetched AND at least min_explorers of them lie in the band around
+//@|     // their median; then the target is that median. A function of the multiset of heights only (median_spec, count).
+//@|     r == (match median_spec(heights@) {
+//@|         None => None::<u64>,
+//@|         Some(m) => {
+//@|             let t = m as i64;
+//@|             let lo = sat_add_i64(t, blocks_behind_threshold) as u64;
+//@|             let hi = sat_add_i64(t, blocks_ahead_threshold) as u64;
+//@|             if heights@.len() >= min_explorers && count_in_band(heights@, lo, hi, heights@.len() as int) >= min_explorers { Some(t as u64) } else { None::<u64> }
+//@|         }
+//@|     }),
+//@|     r matches Some(t) ==> t < 0x8000_0000_0000_0000,
+//@ loop 1 binder=itx
+//@| invariant vp_count == count_in_band(heights@, lo, hi, itx.index@ as int), vp_count <= itx.index@,
+//@ before "if lo <= *x && *x <= hi { vp_count = vp_count + 1; }"
+//@| proof { assert(itx.index@ < heights@.len()); assert(heights@.len() == heights.len()); }
+//@end
+
+// ---------------------------------------------------------------------------------------------------------------------
+// C17: compare (health.rs:123) for ANY list of explorer results: only successful fetches of THIS list count, in any order
+// R17: `xs.iter().filter_map(|b| b.height).collect::<Vec<_>>()` => a loop pushing the Some heights; `a.zip(b).map(|(s, t)| e)` =>
+// `match (a, b) { (Some(s), Some(t)) => Some(e), _ => None }`; `o.map_or(d, |x| e)` => `match o { None => d, Some(x) => e }`
+// ---------------------------------------------------------------------------------------------------------------------
+// [trusted:stand-in] watchdog::config::Config as far as compare reads it (the two getters are extracted)
+struct Config { blocks_behind_threshold: u64, blocks_ahead_threshold: u64, min_explorers: u64 }
+impl Config {
+//@extract file=watchdog/src/config.rs in="impl Config" item="fn get_blocks_behind_threshold" props=C17
+//@ ret r
+//@ spec
+//@| requires self.blocks_behind_threshold <= 1_000_000,
+//@| ensures r == -(self.blocks_behind_threshold as int),
+//@end
+//@extract file=watchdog/src/config.rs in="impl Config" item="fn get_blocks_ahead_threshold" props=C17
+//@ ret r
+//@ spec
+//@| requires self.blocks_ahead_threshold <= 1_000_000,
+//@| ensures r == self.blocks_ahead_threshold as int,
+//@end
+}
+// the heights of the successful fetches among the first n results, in order
+spec fn fetched_heights(e: Seq<BlockInfo>, n: int) -> Seq<u64>
+    decreases n
+{
+    if n <= 0 { Seq::empty() } else {
+        match e[n - 1].height { Some(h) => fetched_heights(e, n - 1).push(h), None => fetched_heights(e, n - 1) }
+    }
+}
+proof fn lemma_fetched_len(e: Seq<BlockInfo>, n: int)
+    requires 0 <= n <= e.len(),
+    ensures fetched_heights(e, n).len() <= n,
+    decreases n
+{ if n > 0 { lemma_fetched_len(e, n - 1); } }
+proof fn lemma_fetched_small(e: Seq<BlockInfo>, n: int)
+    requires 0 <= n <= e.len(), forall|i: int| 0 <= i < e.len() ==> ((#[trigger] e[i]).height matches Some(h) ==> h < 0x4000_0000_0000_0000),
+    ensures forall|i: int| 0 <= i < fetched_heights(e, n).len() ==> (#[trigger] fetched_heights(e, n)[i]) < 0x4000_0000_0000_0000,
+    decreases n
+{
+    if n > 0 {
+        lemma_fetched_small(e, n - 1);
+        let prev = fetched_heights(e, n - 1);
+        match e[n - 1].height {
+            Some(h) => {
+                assert(fetched_heights(e, n) == prev.push(h));
+                assert forall|i: int| 0 <= i < fetched_heights(e, n).len() implies (#[trigger] fetched_heights(e, n)[i]) < 0x4000_0000_0000_0000 by {
+                    if i < prev.len() { assert(prev.push(h)[i] == prev[i]); }
+                }
+            }
+            None => {}
+        }
+    }
+}
+spec fn target_spec(heights: Seq<u64>, min_explorers: usize, behind: i64, ahead: i64) -> Option<u64> {
+    match median_spec(heights) {
+        None => None::<u64>,
+        Some(m) => {
+            let t = m as i64;
+            let lo = sat_add_i64(t, behind) as u64;
+            let hi = sat_add_i64(t, ahead) as u64;
+            if heights.len() >= min_explorers && count_in_band(heights, lo, hi, heights.len() as int) >= min_explorers { Some(t as u64) } else { None::<u64> }
+        }
+    }
+}
+//@extract file=watchdog/src/health.rs item="fn compare" props=C17
+//@ ret r
+//@ rewrite R17 "let heights = explorers\s*\.iter\(\)\s*\.filter_map\(\|block\| block\.height\)\s*\.collect::<Vec<_>>\(\);" => "let mut heights: Vec<u64> = Vec::new();\n    for block in explorers.iter() {\n        if let Some(vp_h) = block.height { heights.push(vp_h); }\n    }"
+//@ rewrite R17 "let height_diff = canister_height\s*\.zip\(explorer_height\)\s*\.map\(\|\(source, target\)\| (source as i64 - target as i64)\);" => "let height_diff = match (canister_height, explorer_height) { (Some(source), Some(target)) => Some(\1), _ => None };"
+//@ rewrite R17 "let height_status = height_diff\.map_or\(HeightStatus::NotEnoughData, \|diff\| \{(.*?)\n    \}\);" => "let height_status = match height_diff { None => HeightStatus::NotEnoughData, Some(diff) => {\1\n    } };"
+//@ spec
+//@| requires
+//@|     // [assumption, stated] the property's domain: heights below 2^62, thresholds up to 10^6, a u64 quorum that fits usize
+//@|     forall|i: int| 0 <= i < explorers@.len() ==> ((#[trigger] explorers@[i]).height matches Some(h) ==> h < 0x4000_0000_0000_0000),
+//@|     canister_height matches Some(h) ==> h < 0x4000_0000_0000_0000,
+//@|     config.blocks_behind_threshold <= 1_000_000, config.blocks_ahead_threshold <= 1_000_000, config.min_explorers <= usize::MAX,
+//@| ensures
+//@|     ({
+//@|         let heights = fetched_heights(explorers@, explorers@.len() as int);
+//@|         let target = target_spec(heights, config.min_explorers as usize, (-(config.blocks_behind_threshold as int)) as i64, config.blocks_ahead_threshold as i64);
+//@|         &&& r.canister_height == canister_height
+//@|         &&& r.explorers@ == explorers@
+//@|         // the target is computed from the heights of THIS list's successful fetches only (failed fetches contribute nothing)
+//@|         &&& r.explorer_height == target
+//@|         // no status unless both the canister height and a target are known; otherwise Behind / Ahead / Ok by the band [-behind, +ahead]
+//@|         &&& r.height_status == (match (canister_height, target) {
+//@|                 (Some(c), Some(t)) => {
+//@|                     let d = c as int - t as int;
+//@|                     if d < -(config.blocks_behind_threshold as int) { HeightStatus::Behind }
+//@|                     else if d > config.blocks_ahead_threshold as int { HeightStatus::Ahead }
+//@|                     else { HeightStatus::Ok }
+//@|                 },
+//@|                 _ => HeightStatus::NotEnoughData,
+//@|             })
+//@|     }),
+//@ loop 1 binder=itb
+//@| invariant
+//@|     heights@ == fetched_heights(explorers@, itb.index@ as int),
+//@ before "if let Some(vp_h) = block.height { heights.push(vp_h); }"
+//@| proof { assert(*block == explorers@[itb.index@ as int]); }
+//@ before "let explorer_height = calculate_height_target("
+//@| proof {
+//@|     lemma_fetched_small(explorers@, explorers@.len() as int);
 //@| }
 //@end
 
